@@ -563,18 +563,21 @@ func toJSON(v *Val) (string, bool) {
 }
 
 // pair is the array constructor [x, y].
-func pair(x, y *Val) *Val {
-	for _, c := range []*Val{x, y} {
+func pair(x, y *Val) *Val { return array(x, y) }
+
+// array is the array constructor [m0, m1, ...].
+func array(ms ...*Val) *Val {
+	for _, c := range ms {
 		if c.K == kErr {
 			return c
 		}
 	}
-	for _, c := range []*Val{x, y} {
+	for _, c := range ms {
 		if c.K == kUnmodelled {
 			return c
 		}
 	}
-	return vArr(x, y)
+	return vArr(ms...)
 }
 
 // ---- comparison / printing -------------------------------------------------------
